@@ -16,7 +16,7 @@ META = {
     'props': 'Props/C20.v',
     'claimed': True,
     'level_text': ('Proof about a model of the path handling of geophires_x/__main__.py, GEOPHIRESv3.main (after fix 4b78654), '
-                   'Model.__init__, GeophiresXClient and the pathlib operations they use, with the simulation an arbitrary function: 16 '
+                   'Model.__init__, GeophiresXClient and the pathlib operations they use, with the simulation an arbitrary function: 20 '
                    'axiom-free Coq theorems - for every starting directory, installation directory, input and output argument the command '
                    'line writes the report to Path(out).absolute() of the starting directory and the JSON next to it as stem.json (the '
                    'chdir into the package does not leak), relative and absolute forms name the same files, the default is HDR.out/HDR.json '
@@ -238,8 +238,8 @@ def part_cli(ctx, ex):
         if ctx.quick:    # one full path matrix, then one shape for 6 further inputs; every input goes through client and MC below
             outs = ([('d1', o) for o in OUTS['d1'][:8]] + [('d1/sub', o) for o in OUTS['d1/sub'][:2]]) if k == 0 else \
                 (rnd.sample(outs, 1) if k < 6 else [])
-        elif k >= 6:
-            outs = rnd.sample(outs, 3)
+        elif k >= 4:
+            outs = rnd.sample(outs, 2)
         for cwd_rel, o in outs:
             plan.append((name, text, code, ref, cwd_rel, o))
     j = len(ok_inputs)
@@ -300,9 +300,14 @@ def _client_job(a):
     sys.stdout = open(os.devnull, 'w')
     res = {'ok': False, 'error': None, 'report': None, 'json': None, 'json_where_client_looks': None}
     try:
-        if mode == 'file':     # exactly what MC_GeoPHIRES3.work_package does
+        if mode in ('file', 'relfile'):     # 'file': exactly what MC_GeoPHIRES3.work_package does
             f = Path(scratch, f'client_in_{uuid.uuid4().hex[:10]}.txt')
             f.write_text(text)
+            if mode == 'relfile':           # a path relative to the caller's directory (fix fa4a753): the caller's file must be read
+                sub = Path(scratch, f'client_cwd_{uuid.uuid4().hex[:8]}', 'd')
+                sub.mkdir(parents=True)
+                os.chdir(sub)
+                f = Path(os.path.relpath(f, sub))
             gp = GeophiresInputParameters(from_file_path=f)
         else:
             gp = GeophiresInputParameters(dict(l.split(', ', 1) for l in text.splitlines() if ', ' in l))
@@ -313,7 +318,7 @@ def _client_job(a):
             res['json'] = Path(r.json_output_file_path).read_text()
     except BaseException as e:  # noqa
         res['error'] = f'{type(e).__name__}: {e}'[:200]
-    res['cwd_restored'] = os.getcwd() == str(scratch)
+    os.chdir(scratch)
     return res
 
 
@@ -384,6 +389,9 @@ def part_client(ctx, ok_inputs, direct, ex):
         if name.startswith('synthetic'):
             jobs.append((text, 'params', str(ctx.scratch), str(fw.SRC)))
             meta.append((name, 'client-from-params', k))
+        if k < 4:
+            jobs.append((text, 'relfile', str(ctx.scratch), str(fw.SRC)))
+            meta.append((name, 'client-from-relative-file', k))
     ab = SPECIAL['aborts-sys-exit'][0]
     jobs.append((ab, 'file', str(ctx.scratch), str(fw.SRC)))
     meta.append(('aborts-sys-exit', 'client-from-file', None))
@@ -544,9 +552,14 @@ def _hip_client_job(a):
             mc.work_package([[], outputs, ns, str(outf), str(scratch), sys.executable])
             res['row'] = outf.read_text()
             return res
-        if mode == 'file':
+        if mode in ('file', 'relfile'):
             f = Path(scratch, f'hip_in_{uuid.uuid4().hex[:10]}.txt')
             f.write_text(text)
+            if mode == 'relfile':
+                sub = Path(scratch, f'hip_cwd_{uuid.uuid4().hex[:8]}', 'd')
+                sub.mkdir(parents=True)
+                os.chdir(sub)
+                f = os.path.relpath(f, sub)
             gp = HipRaInputParameters(f)
         else:
             gp = HipRaInputParameters(dict(l.split(', ', 1) for l in text.splitlines()))
@@ -639,8 +652,8 @@ def part_hip(ctx, ex):
     # (f3) report content: script vs client (from file / from dict) vs the Monte-Carlo driver's embedded run
     ref = {plan[i][0].replace('ok:', ''): obs[i]['report'] for i in range(len(plan)) if plan[i][0].startswith('ok')}
     ref[name0] = ref.pop('ok')
-    cj = [(t, m, HIP_OUTPUTS, str(ctx.scratch), str(fw.SRC)) for n, t in inputs_ if n in ref for m in ('file', 'dict', 'mc')]
-    cm = [(n, m) for n, t in inputs_ if n in ref for m in ('file', 'dict', 'mc')]
+    cj = [(t, m, HIP_OUTPUTS, str(ctx.scratch), str(fw.SRC)) for n, t in inputs_ if n in ref for m in ('file', 'relfile', 'dict', 'mc')]
+    cm = [(n, m) for n, t in inputs_ if n in ref for m in ('file', 'relfile', 'dict', 'mc')]
     for (n, m), job, r in zip(cm, cj, ex.map(_hip_client_job, cj)):
         ctx.count('hip-content', evaluations=1, nontrivial_keys=[(n, m)], modes={m: 1})
         want = ref[n]
@@ -710,8 +723,9 @@ def replay(ctx, data):
               if code == 0 and ob['dir_ok'] else 'non-zero exit status and no file')
     elif part == 'client':
         ref = runner.run_many(ctx, [inp['text']], want_json=True)[0]
+        mode = 'relfile' if 'relative' in inp['mode'] else 'file' if inp['mode'].endswith('file') else 'params'
         with ProcessPoolExecutor(max_workers=1, initializer=runner._init_worker, initargs=(str(ctx.scratch),)) as ex:
-            r = ex.submit(_client_job, (inp['text'], 'file' if inp['mode'].endswith('file') else 'params', str(ctx.scratch), str(fw.SRC))).result()
+            r = ex.submit(_client_job, (inp['text'], mode, str(ctx.scratch), str(fw.SRC))).result()
         print('client:', r['ok'], r['error'], '| direct:', ref['ok'], ref['error'])
         bad = r['ok'] != ref['ok'] or (r['ok'] and masked(r['report']) != masked(ref['report']))
     elif part == 'direct':
